@@ -653,7 +653,7 @@ add('c01-overlap-decided-on-get', ['C01', 'C02'], 'fire', 'PlateSlicer._transfer
     'if (addressed[0] & addressed[1]).any():', 'if numpy.shares_memory(frm.get(), to.get()):',
     'get() is a new array for lists of wells: overlapping lists are accepted')
 add('c09-plate-scan-skipped-on-display-volume', ['C09', 'C17', 'C15'], 'fire', 'Recipe.bake',
-    'else:  # Plate: what vanished from each well', 'elif step.to[0].get_volume() != step.to[1].get_volume():',
+    'step.substances_used = set()', 'step.substances_used = set() if step.to[0].get_volume() != step.to[1].get_volume() else step.substances_used',
     'less than half a display unit per well leaves no trace in the record')
 add('c05-contents-dropped-on-zero-volume', ['C05', 'C10'], 'fire', 'Container._transfer',
     'to.volume = 0\n    for substance, amount in to.contents.items():',
@@ -672,3 +672,21 @@ add('c12-solvent-container-taken-for-pure', ['C12'], 'fire', 'Container.create_s
     'the solute a solvent container already holds is ignored')
 add('c01-single-well-list-through-get', ['C01', 'C07'], 'fire', 'PlateSlicer._transfer',
     "if frm.shape != (1, 1):\n            raise RuntimeError('Shape of source should have been (1, 1)')", 'pass', 'a one-element list of wells is a copy: the write is lost')
+add('c17-repeated-remove-dropped', ['C17', 'C08'], 'fire', 'Recipe.remove',
+    "self.steps.append(RecipeStep(self, 'remove', None, destination, what))",
+    "if self.steps and self.steps[-1].operator == 'remove':\n        return\n    self.steps.append(RecipeStep(self, 'remove', None, destination, what))",
+    'a declaration judged to be a repetition is not recorded')
+add('c14-prefix-case-folded', ['C14'], 'fire', 'Unit.convert_prefix_to_multiplier',
+    'if prefix in prefixes:', 'if prefix.lower() in prefixes:\n        return prefixes[prefix.lower()]\n    if prefix in prefixes:',
+    "'U', 'K', 'N' become prefixes")
+add('c02-dispatcher-skips-small-requests', ['C02'], 'fire', 'Plate.transfer',
+    'return PlateSlicer._transfer(source, destination, quantity)',
+    'if Unit.parse_quantity(quantity)[0] < 1e-09:\n        return (source, destination)\n    return PlateSlicer._transfer(source, destination, quantity)',
+    'the dispatcher answers by itself')
+add('c15-steps-filtered-at-bake', ['C15', 'C09', 'C08'], 'fire', 'Recipe.bake',
+    'self.locked = True', 'self.steps = [s for s in self.steps if s.operator]\n    self.locked = True',
+    'the stages are index ranges into the list that is being replaced')
+add('c15-answer-remembered-without-the-mode', ['C15', 'C09'], 'fire', 'Recipe.get_amount_remaining',
+    "steps = self.steps[self.stages[timeframe]]",
+    "steps = self.used_memo.get(timeframe)\n    if steps is None:\n        steps = self.steps[self.stages[timeframe]]\n        if mode == 'after':\n            steps = list(reversed(steps))\n        self.used_memo[timeframe] = steps",
+    'the remembered list depends on the mode, the key does not name it')
